@@ -179,6 +179,28 @@ def diff_snap(before, o):
             if isinstance(a, TrajSnap):
                 d = a.diff(b)
                 return None if d is None else "%s: %s" % (path, d)
+            # readable paths (message only): attributes of Result / PE objects, keys of dicts
+            if (isinstance(a, tuple) and isinstance(b, tuple) and len(a) == len(b) and a and a[0] == b[0]
+                    and a[0] in ("obj", "dict") and isinstance(a[-1], list) and isinstance(b[-1], list)
+                    and len(a[-1]) == len(b[-1]) and all(ka == kb for (ka, _), (kb, _) in zip(a[-1], b[-1]))):
+                for (ka, va), (_, vb) in zip(a[-1], b[-1]):
+                    name = ka if isinstance(ka, str) else (ka[1] if isinstance(ka, tuple) and len(ka) == 2 else ka)
+                    r = walk(va, vb, ("%s.%s" if a[0] == "obj" else "%s[%r]") % (path, name))
+                    if r:
+                        return r
+                return None if a == b else "%s differs" % path
+            if (isinstance(a, tuple) and isinstance(b, tuple) and len(a) == 4 and len(b) == 4 and a[0] == "nd"
+                    and b[0] == "nd" and a != b):
+                if a[1:3] != b[1:3]:
+                    return "%s: array dtype/shape %r -> %r" % (path, a[1:3], b[1:3])
+                try:
+                    x, y = np.frombuffer(a[3], dtype=a[1]), np.frombuffer(b[3], dtype=b[1])
+                    ks = [k for k in range(x.size) if x[k:k + 1].tobytes() != y[k:k + 1].tobytes()]
+                    return "%s: array contents changed at flat indices %r (e.g. [%d]: %r -> %r)%s" % (
+                        path, ks[:8], ks[0], x[ks[0]].item(), y[ks[0]].item(),
+                        "; same multiset of values (reordered)" if sorted(x.tolist()) == sorted(y.tolist()) else "")
+                except Exception:   # noqa  (message only)
+                    return "%s differs" % path
             if isinstance(a, (list, tuple)) and isinstance(b, (list, tuple)) and len(a) == len(b):
                 for k, (x, y) in enumerate(zip(a, b)):
                     r = walk(x, y, "%s[%d]" % (path, k))
@@ -1303,6 +1325,75 @@ def call_table():
         return str(pc)
     for w in ("__init__", "__str__", "add_figure", "export", "serialize", "close"):
         add(pl + "PlotCollection." + w, lambda I, w=w: ({"A": I.A}, lambda: collection(I, w), None))
+
+    # ---------------- the plotting step of evo_ape / evo_rpe ("a plot" of a Result): common_ape_rpe.plot_result
+    # builds the raw error plot and the colour-mapped trajectory plot from the Result and the two trajectories with
+    # evo.tools.plot; every colormap option of the command line (explicit limits, --plot_colormap_max_percentile),
+    # every x dimension, with/without the full reference, pose correspondences, export to a file.  The Result and
+    # all trajectories are arguments that are only read; the argparse namespace is the object the function fills in
+    # (plot_colormap_min/max receive their defaults) and is not inspected.
+    def pr_setup(I, stamped):
+        key = "pr_%s" % stamped
+        if key not in I.__dict__:
+            from evo import main_ape
+            ref = I.A if stamped else I.P
+            warm = all(a in ref.__dict__ for a in LAZY)
+            # estimate = the reference displaced pose by pose by the distances I.err (not monotonic, as any real
+            # error curve), in the same storage mode / cache state as the reference
+            dirs = I.xyz2 / np.linalg.norm(I.xyz2, axis=1)[:, None]
+            src = copy.deepcopy(ref)
+            poses = [np.array(p) for p in src.poses_se3]
+            for k, p in enumerate(poses):
+                p[:3, 3] += I.err[k] * dirs[k]
+            if I.mode == "mat":
+                est = (PoseTrajectory3D(poses_se3=poses, timestamps=np.array(ref.timestamps)) if stamped
+                       else PosePath3D(poses_se3=poses))
+            else:
+                xyz, quat = np.array([p[:3, 3] for p in poses]), np.array(src.orientations_quat_wxyz)
+                est = PoseTrajectory3D(xyz, quat, np.array(ref.timestamps)) if stamped else PosePath3D(xyz, quat)
+            if warm:
+                est.positions_xyz, est.orientations_quat_wxyz, est.poses_se3
+            res = main_ape.ape(ref, est, PR.translation_part, ref_name="ref", est_name="est")
+            I.__dict__[key] = (res, ref, est)
+        return I.__dict__[key]
+
+    def pr_call(I, stamped, full, settings, over):
+        import argparse
+        from evo import common_ape_rpe
+        from evo.tools.settings import SETTINGS
+        res, ref, est = pr_setup(I, stamped)
+        ns = dict(plot_mode="xy", plot_x_dimension="index", plot_colormap_min=None, plot_colormap_max=None,
+                  plot_colormap_max_percentile=None, map_tile=None, ros_map_yaml=None, plot=False, save_plot=None,
+                  serialize_plot=None, no_warnings=True)
+        ns.update(over)
+        for k_ in ("save_plot", "serialize_plot"):
+            if ns[k_]:
+                ns[k_] = os.path.join(I.tmp, ns[k_])
+        saved = {k_: SETTINGS[k_] for k_ in settings}
+        try:
+            for k_, v_ in settings.items():
+                SETTINGS[k_] = v_
+            common_ape_rpe.plot_result(argparse.Namespace(**ns), res, ref, est, traj_ref_full=full)
+        finally:
+            for k_, v_ in saved.items():
+                SETTINGS[k_] = v_
+
+    def pr_variant(stamped, full=False, settings=None, **over):
+        def v(I):
+            res, ref, est = pr_setup(I, stamped)
+            args = {"result": res, "traj_ref": ref, "traj_est": est}
+            if full:
+                args["traj_ref_full"] = I.B if stamped else I.Q
+            return args, (lambda: pr_call(I, stamped, args.get("traj_ref_full"), settings or {}, over)), None
+        add("evo.common_ape_rpe.plot_result", v)
+    pr_variant(True)
+    pr_variant(True, plot_colormap_min=0.0, plot_colormap_max=0.5, plot_x_dimension="seconds")
+    pr_variant(True, plot_colormap_max_percentile=90.0)
+    pr_variant(True, full=True, plot_colormap_max_percentile=50.0, plot_mode="xyz", plot_x_dimension="distances")
+    pr_variant(False, plot_colormap_max_percentile=25.0, plot_colormap_min=0.05, plot_mode="yz", save_plot="pr.png")
+    pr_variant(True, settings={"plot_pose_correspondences": True}, plot_colormap_max_percentile=75,
+               plot_colormap_max=2.0, plot_mode="zx", plot_x_dimension="seconds")
+    pr_variant(False, full=True, plot_colormap_max_percentile=99.0, plot_mode="xz", plot_x_dimension="distances")
     return T
 
 
@@ -1518,7 +1609,9 @@ def run(ctx, replay=None, proofs_ok=True):
     n_hist = sum(1 for c in cases if c["kind"] == "history")
     cov = {
         "evaluations": stats["evaluations"], "distinct_nontrivial": stats["distinct_nontrivial"],
-        "rule": "(a) every entry of the call table x variants x {matrix, xyz+quaternion storage} x {cold, warm caches}; "
+        "rule": "(a) every entry of the call table (public functions of evo.core / evo.tools + the plotting step of evo_ape / "
+                "evo_rpe, common_ape_rpe.plot_result, with every colormap option) x variants x {matrix, xyz+quaternion "
+                "storage} x {cold, warm caches}; "
                 "(b,c) corpus (F5a/F5b reproducers, PosePath3D) + systematic 2-step histories (15 derivations x 20 "
                 "in-place operations x 2 storage modes x 4 cache states of the source; quick: every 3rd) + association of "
                 "equally long, fully matched trajectories (identical / jittered stamps, both argument orders) followed by "
@@ -1538,6 +1631,9 @@ def run(ctx, replay=None, proofs_ok=True):
             "length units rewrites it in place (Result is not derived from a trajectory; modelled as NBagShare)",
             "merge_results([r]) returns r itself",
             "transform(right_mul=True, propagate=True) keeps the first pose matrix of the old list",
+            "common_ape_rpe.plot_result() stores the defaults of plot_colormap_min / plot_colormap_max in the argparse "
+            "namespace it is given (the options object it fills in; Result and trajectories are snapshotted)",
         ],
+        "call_table_entries_outside_core_and_tools": sorted(n for n in table if n not in names),
     }
     return {"failures": failures, "coverage": cov}
